@@ -1,6 +1,7 @@
 //@unit resp_dec
 //@properties C21
 //@source resp src/protocol/resp.rs
+//@source oracle verif:units/resp_dec/oracle/enc_exec.rs
 //@rules D2 R10
 #![feature(allocator_api)]
 #![allow(unused_imports, unused_variables, unused_mut, dead_code)]
@@ -84,6 +85,24 @@ impl<'a> Buf for &'a [u8] {
     open spec fn bytes(&self) -> Seq<u8> { (*self)@ }
     #[verifier::external_body]
     fn advance(&mut self, cnt: usize) { *self = &self[cnt..]; }
+}
+
+/// bytes::BytesMut (A-EXT): a growable byte buffer; only the three operations `decode` uses are declared, with the
+/// contracts the bytes crate documents (len, the buffered bytes as a slice, advance = drop from the front)
+#[verifier::external_body]
+pub struct BytesMut { v: Vec<u8> }
+impl BytesMut {
+    pub uninterp spec fn view(&self) -> Seq<u8>;
+    #[verifier::external_body]
+    pub fn len(&self) -> (n: usize) ensures n == self.view().len() { self.v.len() }
+    /// stands for `&buf[..]` (Deref<Target = [u8]> then Index<RangeFull>): the buffered bytes
+    #[verifier::external_body]
+    pub fn as_slice_full(&self) -> (s: &[u8]) ensures s@ == self.view() { &self.v[..] }
+}
+impl Buf for BytesMut {
+    open spec fn bytes(&self) -> Seq<u8> { self.view() }
+    #[verifier::external_body]
+    fn advance(&mut self, cnt: usize) { self.v.drain(..cnt); }
 }
 
 //@enum RespError
@@ -258,8 +277,268 @@ pub open spec fn agrees(r: RespResult<Option<RespValue>>, fin: Seq<u8>, d: D) ->
     }
 }
 
+// =====================================================================
+// the encoder as a mathematical function, and the framing theorems (C20, C22)
+// =====================================================================
+/// UTF-8 encoding of a character sequence and Display of an integer: uninterpreted, with the facts used (A-STD)
+pub uninterp spec fn utf8_encode(cs: Seq<char>) -> Seq<u8>;
+pub uninterp spec fn fmt_int(i: int) -> Seq<char>;
+pub open spec fn line_safe(cs: Seq<char>) -> bool { forall|i: int| 0 <= i < cs.len() ==> cs[i] != '\r' && cs[i] != '\n' }
+pub open spec fn no_cr_lf(b: Seq<u8>) -> bool { forall|i: int| 0 <= i < b.len() ==> b[i] != 13u8 && b[i] != 10u8 }
+#[verifier::external_body]
+pub proof fn axiom_utf8(cs: Seq<char>)
+    ensures
+        utf8_decode(utf8_encode(cs)) == Some(cs),
+        line_safe(cs) ==> no_cr_lf(utf8_encode(cs)),
+{}
+#[verifier::external_body]
+pub proof fn axiom_fmt_int(i: int)
+    ensures
+        line_safe(fmt_int(i)),
+        i64::MIN <= i <= i64::MAX ==> parse_spec::<i64>(fmt_int(i)) == Some(i as i64),
+        0 <= i <= usize::MAX ==> parse_spec::<usize>(fmt_int(i)) == Some(i as usize),
+{}
+
+pub open spec fn crlf() -> Seq<u8> { seq![13u8, 10u8] }
+pub open spec fn text_line(tag: u8, cs: Seq<char>) -> Seq<u8> { seq![tag] + utf8_encode(cs) + crlf() }
+
+pub open spec fn enc(v: SV) -> Seq<u8>
+    decreases v
+{
+    match v {
+        SV::Simple(cs) => text_line(43u8, cs),
+        SV::Error(cs) => text_line(45u8, cs),
+        SV::Int(i) => text_line(58u8, fmt_int(i as int)),
+        SV::Bulk(None) => text_line(36u8, fmt_int(-1)),
+        SV::Bulk(Some(d)) => text_line(36u8, fmt_int(d.len() as int)) + d + crlf(),
+        SV::Array(items) => text_line(42u8, fmt_int(items.len() as int)) + enc_all(items),
+        SV::Null => seq![95u8, 13u8, 10u8],
+    }
+}
+pub open spec fn enc_all(items: Seq<SV>) -> Seq<u8>
+    decreases items
+{
+    if items.len() == 0 { Seq::empty() } else { enc(items[0]) + enc_all(items.skip(1)) }
+}
+/// well-formed at nesting level `depth`: one-line texts, lengths a real buffer can have, nesting within the decoder's limit
+pub open spec fn wf(v: SV, depth: nat) -> bool
+    decreases v
+{
+    match v {
+        SV::Simple(cs) => line_safe(cs),
+        SV::Error(cs) => line_safe(cs),
+        SV::Int(i) => true,
+        SV::Bulk(None) => true,
+        SV::Bulk(Some(d)) => d.len() <= i64::MAX,
+        SV::Array(items) => depth < MAXD() && items.len() <= usize::MAX
+            && forall|i: int| 0 <= i < items.len() ==> wf(items[i], depth + 1),
+        SV::Null => true,
+    }
+}
+
+pub proof fn lemma_text_line(tag: u8, cs: Seq<char>, rest: Seq<u8>)
+    requires line_safe(cs), tag != 13u8
+    ensures
+        line(text_line(tag, cs) + rest) == Some((seq![tag] + utf8_encode(cs), rest)),
+        dec_text(seq![tag] + utf8_encode(cs)) == Some(cs),
+        (text_line(tag, cs) + rest).len() > 0 && (text_line(tag, cs) + rest)[0] == tag,
+{
+    axiom_utf8(cs);
+    let b = utf8_encode(cs);
+    let s = text_line(tag, cs) + rest;
+    let p: int = 1 + b.len() as int;
+    assert(s[p] == 13u8 && s[p + 1] == 10u8);
+    assert(crlf_at(s, p));
+    assert forall|j: int| 0 <= j < p implies !crlf_at(s, j) by {
+        if j >= 1 { assert(s[j] == b[j - 1]); }
+    }
+    assert(first_crlf(s, p));
+    lemma_first_crlf_exists(s, p);
+    lemma_first_crlf_unique(s, p, line_end(s));
+    assert(s.subrange(0, p) =~= seq![tag] + b);
+    assert(s.skip(p + 2) =~= rest);
+    assert((seq![tag] + b).skip(1) =~= b);
+}
+
+pub proof fn lemma_roundtrip(v: SV, depth: nat, rest: Seq<u8>)
+    requires wf(v, depth)
+    ensures dec_value(enc(v) + rest, depth) == D::Val(v, rest)
+    decreases v, 0nat
+{
+    let s = enc(v) + rest;
+    match v {
+        SV::Simple(cs) => { lemma_text_line(43u8, cs, rest); }
+        SV::Error(cs) => { lemma_text_line(45u8, cs, rest); }
+        SV::Int(i) => { axiom_fmt_int(i as int); lemma_text_line(58u8, fmt_int(i as int), rest); }
+        SV::Bulk(None) => { axiom_fmt_int(-1); lemma_text_line(36u8, fmt_int(-1), rest); }
+        SV::Bulk(Some(d)) => {
+            let n: int = d.len() as int;
+            axiom_fmt_int(n);
+            let tail = d + crlf() + rest;
+            lemma_text_line(36u8, fmt_int(n), tail);
+            assert(s =~= text_line(36u8, fmt_int(n)) + tail);
+            assert(tail.subrange(0, n) =~= d);
+            assert(tail.skip(n + 2) =~= rest);
+            assert(tail[n] == 13u8 && tail[n + 1] == 10u8);
+        }
+        SV::Array(items) => {
+            let n = items.len() as int;
+            axiom_fmt_int(n);
+            let tail = enc_all(items) + rest;
+            lemma_text_line(42u8, fmt_int(n), tail);
+            assert(s =~= text_line(42u8, fmt_int(n)) + tail);
+            assert(items.skip(0) =~= items);
+            lemma_roundtrip_elems(items, 0, depth, rest, Seq::empty());
+            assert(Seq::<SV>::empty() + items =~= items);
+        }
+        SV::Null => {
+            assert(s[1] == 13u8 && s[2] == 10u8);
+            assert(first_crlf(s, 1));
+            lemma_first_crlf_exists(s, 1);
+            lemma_first_crlf_unique(s, 1, line_end(s));
+            assert(s.subrange(0, 1) =~= seq![95u8]);
+            assert(s.skip(3) =~= rest);
+        }
+    }
+}
+
+pub proof fn lemma_roundtrip_elems(items: Seq<SV>, k: nat, depth: nat, rest: Seq<u8>, acc: Seq<SV>)
+    requires
+        depth < MAXD(), k <= items.len(),
+        forall|i: int| 0 <= i < items.len() ==> wf(items[i], depth + 1),
+    ensures
+        dec_elems(enc_all(items.skip(k as int)) + rest, depth, (items.len() - k) as nat, acc)
+            == D::Val(SV::Array(acc + items.skip(k as int)), rest)
+    decreases items, items.len() - k
+{
+    let tl = items.skip(k as int);
+    if k == items.len() {
+        assert(tl =~= Seq::<SV>::empty());
+        assert(enc_all(tl) + rest =~= rest);
+        assert(acc + tl =~= acc);
+    } else {
+        let v = items[k as int];
+        assert(tl[0] == v);
+        assert(tl.skip(1) =~= items.skip(k as int + 1));
+        let rest2 = enc_all(items.skip(k as int + 1)) + rest;
+        assert(enc_all(tl) + rest =~= enc(v) + rest2);
+        lemma_roundtrip(v, depth + 1, rest2);
+        lemma_roundtrip_elems(items, k + 1, depth, rest, acc.push(v));
+        assert(acc.push(v) + items.skip(k as int + 1) =~= acc + tl);
+    }
+}
+
+/// "wait for more bytes": the two outcomes after which the connection loop keeps the buffer and reads again
+pub open spec fn waits(d: D) -> bool { d is More || d is Incomplete }
+
+pub proof fn lemma_text_line_prefix(tag: u8, cs: Seq<char>, k: int)
+    requires line_safe(cs), tag != 13u8, 0 <= k < text_line(tag, cs).len()
+    ensures line(text_line(tag, cs).take(k)) is None
+{
+    axiom_utf8(cs);
+    let b = utf8_encode(cs);
+    let s = text_line(tag, cs).take(k);
+    assert forall|j: int| !crlf_at(s, j) by {
+        if 0 <= j && j + 1 < s.len() {
+            if j >= 1 { assert(s[j] == b[j - 1]); }
+        }
+    }
+}
+
+pub proof fn lemma_prefix(v: SV, depth: nat, k: int)
+    requires wf(v, depth), 0 <= k < enc(v).len()
+    ensures waits(dec_value(enc(v).take(k), depth))
+    decreases v, 0nat
+{
+    let s = enc(v).take(k);
+    if k == 0 {
+    } else {
+        match v {
+            SV::Simple(cs) => { lemma_text_line_prefix(43u8, cs, k); }
+            SV::Error(cs) => { lemma_text_line_prefix(45u8, cs, k); }
+            SV::Int(i) => { axiom_fmt_int(i as int); lemma_text_line_prefix(58u8, fmt_int(i as int), k); }
+            SV::Bulk(None) => { axiom_fmt_int(-1); lemma_text_line_prefix(36u8, fmt_int(-1), k); }
+            SV::Bulk(Some(d)) => {
+                let n: int = d.len() as int;
+                axiom_fmt_int(n);
+                let hl = text_line(36u8, fmt_int(n));
+                if k < hl.len() {
+                    lemma_text_line_prefix(36u8, fmt_int(n), k);
+                    assert(s =~= hl.take(k));
+                } else {
+                    let m = k - hl.len();
+                    let tail = (d + crlf()).take(m);
+                    lemma_text_line(36u8, fmt_int(n), tail);
+                    assert(s =~= hl + tail);
+                }
+            }
+            SV::Array(items) => {
+                let n: int = items.len() as int;
+                axiom_fmt_int(n);
+                let hl = text_line(42u8, fmt_int(n));
+                if k < hl.len() {
+                    lemma_text_line_prefix(42u8, fmt_int(n), k);
+                    assert(s =~= hl.take(k));
+                } else {
+                    let m = k - hl.len();
+                    let tail = enc_all(items).take(m);
+                    lemma_text_line(42u8, fmt_int(n), tail);
+                    assert(s =~= hl + tail);
+                    assert(items.skip(0) =~= items);
+                    lemma_prefix_elems(items, 0, depth, m, Seq::empty());
+                }
+            }
+            SV::Null => {
+                assert forall|j: int| !crlf_at(s, j) by { }
+            }
+        }
+    }
+}
+
+pub proof fn lemma_prefix_elems(items: Seq<SV>, i: nat, depth: nat, m: int, acc: Seq<SV>)
+    requires
+        depth < MAXD(), i <= items.len(),
+        forall|j: int| 0 <= j < items.len() ==> wf(items[j], depth + 1),
+        0 <= m < enc_all(items.skip(i as int)).len(),
+    ensures
+        dec_elems(enc_all(items.skip(i as int)).take(m), depth, (items.len() - i) as nat, acc) is Incomplete
+    decreases items, items.len() - i
+{
+    let tl = items.skip(i as int);
+    if i == items.len() {
+        assert(tl =~= Seq::<SV>::empty());
+    } else {
+        let v = items[i as int];
+        assert(tl[0] == v);
+        assert(tl.skip(1) =~= items.skip(i as int + 1));
+        let e = enc(v);
+        let more = enc_all(items.skip(i as int + 1));
+        assert(enc_all(tl) == e + more);
+        if m < e.len() {
+            assert((e + more).take(m) =~= e.take(m));
+            lemma_prefix(v, depth + 1, m);
+        } else {
+            let rest2 = more.take(m - e.len());
+            assert((e + more).take(m) =~= e + rest2);
+            lemma_roundtrip(v, depth + 1, rest2);
+            lemma_prefix_elems(items, i + 1, depth, m - e.len(), acc.push(v));
+        }
+    }
+}
+
 impl RespValue {
 //@item const MAX_DEPTH
+
+//@fn RespValue::decode ret=r
+//@ensures
+        match dec_value(old(buf).view(), 0) {
+            D::Val(v, rest) => r matches Ok(Some(x)) && sv(x) == v && final(buf).view() == rest,
+            D::More => r matches Ok(None) && final(buf).view() == old(buf).view(),
+            D::Incomplete => r matches Err(RespError::Incomplete) && final(buf).view() == old(buf).view(),
+            D::Bad => r matches Err(e) && !(e is Incomplete) && is_suffix(final(buf).view(), old(buf).view()),
+        },                                                              //#frame_or_untouched
+//@replace "&buf[..]" => "buf.as_slice_full()" :: `&buf[..]` on BytesMut goes through Deref<Target=[u8]> and Index<RangeFull>; the stand-in method has that meaning
+//@end
 
 //@fn RespValue::decode_value ret=r
 //@ensures
@@ -449,5 +728,165 @@ impl RespValue {
             r matches Ok(Some(_)) ==> final(buf)@.len() < old(buf)@.len(),
     { unimplemented!() }
 }
+
+// =====================================================================
+// the reference encoder (units/resp_dec/oracle/enc_exec.rs; the oracle of the Kani harnesses on RespValue::encode)
+// proved to write enc(san(sv(v))) for every value
+// =====================================================================
+pub open spec fn san_text(cs: Seq<char>) -> Seq<char> { Seq::new(cs.len(), |i: int| if cs[i] == '\r' || cs[i] == '\n' { ' ' } else { cs[i] }) }
+/// the value a reply is encoded as: CR/LF in one-line texts become spaces
+pub open spec fn san(v: SV) -> SV
+    decreases v
+{
+    match v {
+        SV::Simple(cs) => SV::Simple(san_text(cs)),
+        SV::Error(cs) => SV::Error(san_text(cs)),
+        SV::Array(items) => SV::Array(Seq::new(items.len(), |i: int| if 0 <= i < items.len() { san(items[i]) } else { SV::Null })),
+        _ => v,
+    }
+}
+
+
+/// what a value needs for its reply encoding to be decodable: nesting within the decoder's limit and lengths a Vec can have
+pub open spec fn shape_ok(v: SV, depth: nat) -> bool
+    decreases v
+{
+    match v {
+        SV::Bulk(Some(d)) => d.len() <= i64::MAX,
+        SV::Array(items) => depth < MAXD() && items.len() <= usize::MAX
+            && forall|i: int| 0 <= i < items.len() ==> shape_ok(items[i], depth + 1),
+        _ => true,
+    }
+}
+pub proof fn lemma_san_wf(v: SV, depth: nat)
+    requires shape_ok(v, depth)
+    ensures wf(san(v), depth)
+    decreases v
+{
+    match v {
+        SV::Array(items) => {
+            let t = san(v)->Array_0;
+            assert forall|i: int| 0 <= i < t.len() implies wf(t[i], depth + 1) by {
+                lemma_san_wf(items[i], depth + 1);
+            }
+        }
+        _ => {}
+    }
+}
+/// C22: whatever text a reply carries, the bytes the reference encoder writes for it decode as exactly one frame,
+/// with nothing left over
+pub proof fn theorem_reply_is_exactly_one_frame(v: SV)
+    requires shape_ok(v, 0)
+    ensures dec_value(enc(san(v)), 0) == D::Val(san(v), Seq::<u8>::empty())
+{
+    lemma_san_wf(v, 0);
+    lemma_roundtrip(san(v), 0, Seq::empty());
+    assert(enc(san(v)) + Seq::<u8>::empty() =~= enc(san(v)));
+}
+/// C20: a well-formed frame followed by anything decodes to that frame and leaves exactly what followed; any proper
+/// prefix of it makes the decoder wait (and `decode` then leaves the buffer untouched, see its contract)
+pub proof fn theorem_frame_then_rest(v: SV, rest: Seq<u8>, k: int)
+    requires wf(v, 0), 0 <= k < enc(v).len()
+    ensures
+        dec_value(enc(v) + rest, 0) == D::Val(v, rest),
+        waits(dec_value(enc(v).take(k), 0)),
+{
+    lemma_roundtrip(v, 0, rest);
+    lemma_prefix(v, 0, k);
+}
+
+#[verifier::external_body]
+pub fn str_bytes(s: &str) -> (r: &[u8])
+    ensures r@ == utf8_encode(s@)
+{ s.as_bytes() }
+#[verifier::external_body]
+pub fn int_text_i64(i: i64) -> (r: String)
+    ensures r@ == fmt_int(i as int)
+{ i.to_string() }
+#[verifier::external_body]
+pub fn int_text_usize(n: usize) -> (r: String)
+    ensures r@ == fmt_int(n as int)
+{ n.to_string() }
+
+pub proof fn lemma_enc_all_push(s: Seq<SV>, v: SV)
+    ensures enc_all(s.push(v)) == enc_all(s) + enc(v)
+    decreases s.len()
+{
+    if s.len() == 0 {
+        let t = s.push(v);
+        assert(t[0] == v);
+        assert(t.skip(1) =~= Seq::<SV>::empty());
+        assert(enc_all(t.skip(1)) =~= Seq::<u8>::empty());
+        assert(enc(v) + Seq::<u8>::empty() =~= enc(v));
+        assert(enc_all(s) =~= Seq::<u8>::empty());
+        assert(Seq::<u8>::empty() + enc(v) =~= enc(v));
+    } else {
+        assert(s.push(v).skip(1) =~= s.skip(1).push(v));
+        lemma_enc_all_push(s.skip(1), v);
+        assert(enc(s[0]) + (enc_all(s.skip(1)) + enc(v)) =~= (enc(s[0]) + enc_all(s.skip(1))) + enc(v));
+    }
+}
+
+//@fn sanitize_text from=oracle ret=r
+//@ensures
+        r@ == san_text(s@),      //#replaces_cr_lf
+//@loop 1 iter=it
+        invariant
+            it.seq() == s@,
+            out@ == san_text(s@).take(it.index() as int),   //#prefix_done
+//@end
+
+//@fn put_line from=oracle
+//@ensures
+        final(out)@ == old(out)@ + text_line(tag, text@),     //#appends_line
+//@end
+
+//@fn enc_exec from=oracle
+//@ensures
+        final(out)@ == old(out)@ + enc(san(sv(*v))),      //#writes_enc
+//@decreases
+        v
+//@after "put_line(out, 43u8, &t);"
+                proof { assert(out@ =~= old(out)@ + enc(san(sv(*v)))); }
+//@after "put_line(out, 45u8, &t);"
+                proof { assert(out@ =~= old(out)@ + enc(san(sv(*v)))); }
+//@after "put_line(out, 58u8, &t);"
+                proof { assert(out@ =~= old(out)@ + enc(san(sv(*v)))); }
+//@after "put_line(out, 36u8, &t);" 1
+                proof { assert(out@ =~= old(out)@ + enc(san(sv(*v)))); }
+//@after "out.push(10u8);" 1
+                proof { assert(out@ =~= old(out)@ + enc(san(sv(*v)))); }
+//@after "out.push(10u8);" 2
+                proof { assert(out@ =~= old(out)@ + enc(san(sv(*v)))); }
+//@before "enc_exec(&items[i], out);"
+                proof { let e = items@[i as int]; assert(tgt[i as int] == san(sv(e))); }
+//@before "let mut i = 0;"
+            let ghost tgt = san(sv(*v))->Array_0;
+            let ghost pre = out@;
+            proof {
+                assert(tgt.take(0) =~= Seq::<SV>::empty()); assert(pre + enc_all(tgt.take(0)) =~= pre);
+                if items@.len() == 0 { assert(tgt =~= Seq::<SV>::empty()); assert(pre =~= old(out)@ + enc(san(sv(*v)))); }
+            }
+//@loop 1
+                invariant
+                    i <= items@.len(),
+                    tgt.len() == items@.len(),
+                    forall|j: int| 0 <= j < items@.len() ==> tgt[j] == san(sv(items@[j])),
+                    out@ == pre + enc_all(tgt.take(i as int)),      //#elements_written
+                    v matches RespValue::Array(its) && its == items,
+                    pre == old(out)@ + text_line(42u8, fmt_int(items@.len() as int)),
+                    san(sv(*v)) == SV::Array(tgt),
+                    i == items@.len() ==> out@ == old(out)@ + enc(san(sv(*v))),     //#all_written_at_exit
+                decreases items@.len() - i
+//@before "i += 1;"
+                proof {
+                    lemma_enc_all_push(tgt.take(i as int), tgt[i as int]);
+                    assert(tgt.take(i as int).push(tgt[i as int]) =~= tgt.take(i + 1));
+                    if i + 1 == items@.len() {
+                        assert(tgt.take(i + 1) =~= tgt);
+                        assert(out@ =~= old(out)@ + enc(san(sv(*v))));
+                    }
+                }
+//@end
 }
 fn main(){}
